@@ -115,6 +115,14 @@ class ModGen:
         if r < 0.93 and allow_ref and o.get("refs", True):
             cands = [(i["n"], p, pw) for i in self.insts for (p, path, pw) in i["_iface"] if pw == w and not path and "array" not in i and "pair" not in i
                      and (i["n"], p) != this]
+            wider = [(i["n"], p, pw) for i in self.insts for (p, path, pw) in i["_iface"] if pw > w and not path and "array" not in i and "pair" not in i
+                     and (i["n"], p) != this]
+            if wider and self.rng.random() < 0.3:
+                # a slice taken directly from a reference to a wider port
+                j, q, pw = self.rng.choice(wider)
+                a = self.rng.randint(0, pw - w)
+                idx = {"i": a} if w == 1 and self.rng.random() < 0.5 else {"s": a, "e": a + w, "st": None}
+                return {"k": "slice", "p": {"k": "pref", "inst": j, "port": q}, "i": idx}
             if cands:
                 j, q, _ = self.rng.choice(cands)
                 return {"k": "pref", "inst": j, "port": q}
